@@ -60,7 +60,17 @@ def run(ctx, crate):
             e = Engine(crate, opaque={"unproj", "ensures_x_is_positive"})
             st = State(); st.heap[('tmp', 'dir')] = ('agg', 'adt:' + CARD, vi, ())
             body = crate.body(fn2)
-            r = e.run_body(body, [param("self"), param("cx"), param("cy"), ('ref_t', ('tmp', 'dir'))], st, fk=((fn2, -1),), stack=(fn2,))
+            # parameters by type, whatever their grouping: floats / a tuple of floats = the centre,
+            # a (reference to a) Cardinal = the direction
+            args = [param("self")]; fl = ["cx", "cy"]
+            for li in range(2, body.arg_count + 1):
+                t = body.local_ty(li)
+                if t["k"] == "float": args.append(param(fl.pop(0)))
+                elif t["k"] == "tuple" and all(x["k"] == "float" for x in t["elems"]): args.append(('agg', 'tuple', 0, tuple(param(fl.pop(0)) for _ in t["elems"])))
+                elif t["k"] == "ref" and t["to"].get("path") == CARD: args.append(('ref_t', ('tmp', 'dir')))
+                elif t.get("path") == CARD: args.append(('agg', 'adt:' + CARD, vi, ()))
+                else: args.append(param("arg%d" % li))
+            r = e.run_body(body, args, st, fk=((fn2, -1),), stack=(fn2,))
             ctx.functions |= e.visited_fns
             nm = {param("cx"): "x", param("cy"): "y", o_t: "o"}
             ua = unproj_args(e, r.ret) if r.returns else None
@@ -86,7 +96,13 @@ def run(ctx, crate):
         if b3 is None: continue
         e = Engine(crate, opaque={cpc, fn2}); e.run(fn3); ctx.functions |= e.visited_fns
         cen = [ev for ev in e.events.values() if ev.callee == cpc]; vl = [ev for ev in e.events.values() if ev.callee == fn2]
-        ok = len(cen) == 1 and len(vl) == 1 and cen[0].args[1] == param("hash") and vl[0].args[1] == ('fld', cen[0].ret, 0) and vl[0].args[2] == ('fld', cen[0].ret, 1)
+        ok = len(cen) == 1 and len(vl) == 1 and cen[0].args[1] == param("hash")
+        if ok:
+            flat = []
+            for a in vl[0].args[1:]:
+                if a[0] == 'agg' and a[1] == 'tuple': flat += list(a[3])
+                else: flat.append(a)
+            ok = (flat[:2] == [('fld', cen[0].ret, 0), ('fld', cen[0].ret, 1)]) or (flat[:1] == [cen[0].ret])
         ctx.report(clause, fn3.split("::")[-1] + ":via-vertex_lonlat(centre)", ok, "%s(hash, ..) = vertex_lonlat(center_of_projected_cell(hash), dir)" % fn3.split("::")[-1], at=b3.span)
     hash_with_dxdy_wrap(ctx, crate)
     offset_map_siblings(ctx, crate)
